@@ -15,6 +15,12 @@ LEVEL = {
  "C07": ("exploration", "Pointer-arithmetic oracle per zero-copy op plus per-call allocation events from the ledger (no align-1 allocation allowed) over the generated histories.", "§4 C07"),
  "C08": ("exploration", "Three-valued uniqueness oracle (pool + ledger) evaluated on every live Bytes after every op; try_into_mut vs is_unique vs address; reclaim clause probed whenever an empty sole BytesMut exists.", "§4 C08"),
  "C13": ("fault_enumeration", "32 out-of-contract call variants injected at every point of generated histories (exhaustively as first step from 13 start states with every 1-op continuation; randomly in walks), each under catch_unwind with a before/after snapshot of every handle, in debug and release, on the ledger and under ASan; a crash inside such a call is a violation.", "§4 C13"),
+ "C09": ("exploration", "Lock-step law monitor: reader trees made of the crate's real adapters are compared with a flat Vec<u8> model after every cursor op; every fragmentation of sequences of length<=6 x 7 wrappers x every op pair, plus random trees to depth 4; Miri on a slice of it.", "§4 C09"),
+ "C10": ("exploration", "Exhaustive getter table (method x value pattern x implementor x chunk-boundary position x call path x shortfall) against a reference decoder, debug+release natively, and slices of it under Miri for host, big-endian s390x and 32-bit i686.", "§4 C10"),
+ "C11": ("exploration", "Writer-tree monitor: model of appended bytes, guard bytes around fixed targets, remaining_mut/chunk_mut laws after every step, dismantling at the end, read-back with the matching getter; ledger (red zones), ASan and Miri builds.", "§4 C11"),
+ "C12": ("exploration", "Dismantling oracle: after each generated use the adapter tree is taken apart with into_inner/get_ref/limit and every inner cursor compared with model[transferred..]; Reader/Writer io results; per-leaf distribution for Chain/Limit writers.", "§4 C12"),
+ "C17": ("fault_enumeration", "Lying/panicking safe trait implementations (exhaustive single-lie placements per entry point, then random multi-lie schedules) are driven into 30 consumers under the ledger (violations + leak balance after unwinding), ASan/LSan and Miri; only memory errors, crashes and leaks count.", "§4 C17"),
+ "C18": ("exploration", "Allocation-trend monitor over the ledger's counters for 6840 (quick) / 7980 (thorough) recycling patterns of 10^4..10^6 rounds each.", "§4 C18"),
  "C14": ("exploration", "Table monitor: every comparison/hash impl instantiation in both operand orders against slice semantics on an exhaustive small universe plus random pairs.", "§4 C14"),
  "C15": ("exploration", "Parse-back monitor for Debug/hex on all 1- and 2-byte strings plus random ones; serde_test token streams for all entry points.", "§4 C15"),
 }
@@ -26,6 +32,12 @@ NOTE = {
  "C07": "trusted: ledger event window around each call; empty results other than split parts are not constrained",
  "C08": "trusted: pool bookkeeping of which handles are alive; H2 only classifies empty handles that hold no storage",
  "C13": "abort-class requests (allocation failure) are not issued in-process; panic messages are not compared",
+ "C09": "laws are asserted for trees whose leaves obey them; the harness Seg leaf is itself checked as a bare leaf",
+ "C10": "reference decoder in the harness; big-endian and 32-bit only under Miri (sampled rows)",
+ "C11": "lying BufMut implementations are out of scope (unsafe trait); bytes written before an expected panic are not constrained",
+ "C12": "expected inner states computed from the adapter tree by the harness",
+ "C17": "allocation-failure aborts are not provoked; size_hint lies limited to values that panic in Vec or are small",
+ "C18": "finite histories; trend judged over 9 post-warm-up windows; tolerance of 2 requests + slack as stated in DESIGN §4 C18",
  "C14": "the impl list is written out by hand in harness/src/bin/cmpfmt.rs; an impl added later is not covered until listed",
  "C15": "grammar of byte-string literals as implemented by the harness parser; serde_test as data-model reference",
 }
@@ -37,10 +49,16 @@ TECH = {
  "C07": "pointer-offset oracle + allocation-event monitor",
  "C08": "three-valued uniqueness oracle monitor",
  "C13": "fault injection of out-of-contract calls with snapshot-after-panic monitor (ledger, ASan)",
+ "C09": "lock-step reference-model monitor over adapter trees (native + Miri)",
+ "C10": "exhaustive table-driven differential monitor vs reference decoder (native, Miri host/s390x/i686)",
+ "C11": "reference-model + guard-byte monitor over writer trees (ledger, ASan, Miri)",
+ "C12": "dismantling oracle over adapter trees; io::Read/Write result monitor",
+ "C17": "fault injection of lying trait impls under allocator ledger, ASan/LSan, Miri",
+ "C18": "allocation-trend monitor over allocator counters",
  "C14": "exhaustive table-driven differential monitor vs slice semantics",
  "C15": "parse-back / token-stream round-trip monitor",
 }
-ENGINE = {"C14": "cmpfmt", "C15": "cmpfmt"}
+ENGINE = {"C14": "cmpfmt", "C15": "cmpfmt", "C09": "bufconf", "C10": "bufconf", "C11": "bufconf", "C12": "bufconf", "C17": "bufconf", "C18": "recycle"}
 
 checks = []
 for pid in sorted(plans.PLANS):
@@ -73,6 +91,8 @@ m = {
  },
  "engines": [
    {"name": "seqdrive", "path": "harness/src/bin/seqdrive.rs", "serves_properties": ["C01","C02","C03","C04","C07","C08","C13","C16"], "kind_free_text": "op-sequence driver with value model, allocator ledger and per-step monitors"},
+   {"name": "bufconf", "path": "harness/src/bin/bufconf.rs", "serves_properties": ["C09","C10","C11","C12","C17"], "kind_free_text": "Buf/BufMut conformance engine over adapter trees, getter table, fault injection"},
+   {"name": "recycle", "path": "harness/src/bin/recycle.rs", "serves_properties": ["C18"], "kind_free_text": "allocation-trend monitor over recycling patterns"},
    {"name": "cmpfmt", "path": "harness/src/bin/cmpfmt.rs", "serves_properties": ["C14","C15"], "kind_free_text": "comparison/hash tables, Debug/hex parse-back, serde token streams"},
  ],
  "checks": checks,
